@@ -145,7 +145,12 @@ def check_grpc_calls(ctx, w, kind, sess, calls, payload, codec):
         full, want = c["expect"]
         got = codec.decode(full, srv[0]["requests"][0])
         if got != codec.normal(full, want):
-            ctx.fail(f"wire:{c['tag']}", f"word {w!r} as {c['tag']} ({kind}): server decoded {got}, caller meant {want}", pl)
+            key = f"wire:{c['tag']}"
+            if w.startswith("_") and c.get("mode") == "kwargs":
+                # proto-plus keeps `msg._x = v` as a plain Python attribute (Message.__setattr__: key[0] == "_"), so the emitted
+                # `request.<attr> = <param>` of a field whose name starts with an underscore never reaches the message
+                key = "flattened-leading-underscore-field-dropped"
+            ctx.fail(key, f"word {w!r} as {c['tag']} ({kind}): server decoded {got}, caller meant {want}", pl)
         md = dict(srv[0]["metadata"])
         if c["tag"] == "top-level field + http path variable":
             if md.get("x-goog-request-params") != f"{w}={coll(w)}/t1":
@@ -386,7 +391,7 @@ def run(ctx):
     res, kw = tables()
     r = ctx.rng("words")
     if ctx.quick:
-        sample = ["class", "import", "format"] + [r.pick(ws) for _ in range(2)]
+        sample = ["class", "import", "format", "__peg_parser__"] + [r.pick(ws) for _ in range(2)]     # `__peg_parser__`: findings/C12.json
     else:
         sample = ws
         ctx.exhaustive = True
